@@ -185,6 +185,7 @@ class Ctx:
         res = {'role': role, 'profiles': {}}
         try:
             mirdump.copy_crate(scratch)
+            open(os.path.join(VERIF, '.cache', f'last_replay_{self.pid}.rs'), 'w').write(uses + "\n" + test_body)
             with open(os.path.join(scratch, inject_into), 'a') as f:
                 f.write("\n#[cfg(test)]\n#[allow(unused_imports, dead_code, unused_variables, unused_mut)]\nmod verif_replay {\n" + uses + "\n" + test_body + "\n}\n")
             for prof in profiles:
@@ -200,10 +201,11 @@ class Ctx:
                     fcntl.flock(lock, fcntl.LOCK_UN)
                     lock.close()
                 out = p.stdout
+                open(os.path.join(VERIF, '.cache', f'last_replay_{self.pid}.log'), 'w').write(out)
                 if 'error[' in out or 'could not compile' in out:
                     res['profiles'][prof] = {'reproduced': False, 'compile_error': True, 'tail': out[-1500:]}
                 else:
-                    res['profiles'][prof] = {'reproduced': expect_marker in out, 'tail': '\n'.join(l for l in out.splitlines() if 'VERIF-REPLAY' in l or 'panicked' in l or l.startswith('step '))[-1500:]}
+                    res['profiles'][prof] = {'reproduced': expect_marker in out, 'tail': '\n'.join(l for l in out.splitlines() if 'VERIF-REPLAY' in l or 'VERIF-OBS' in l or 'panicked' in l or l.startswith('step '))[-6000:]}
             self.replayed += 1
         finally:
             shutil.rmtree(scratch, ignore_errors=True)
@@ -239,6 +241,33 @@ class Ctx:
         self.violations.append(v)
         if not rp['reproduced']:
             self.inconclusive.append(f"counterexample for {role} did not reproduce natively (encoding disagreement?): {json.dumps(rp)[:600]}")
+        return v
+
+    def report_obs(self, role, text, model_desc, test_body, expected_obs, inject_into='src/lib.rs', profiles=('dev',)):
+        """Observation-equality replay: the native test prints `VERIF-OBS <observation>`; the counterexample is
+        reproduced iff that observation equals the one the engine predicted for the same concrete input."""
+        for v in self.violations:
+            if v['role'] == role:
+                v['count'] = v.get('count', 1) + 1
+                return v
+        rp = self.replay_native(role, test_body, expect_marker='VERIF-OBS', profiles=profiles, inject_into=inject_into)
+        native = None
+        for prof in rp['profiles'].values():
+            mm = re.search(r'VERIF-OBS (.*)', prof.get('tail', ''))
+            if mm:
+                native = mm.group(1).strip()
+                break
+        reproduced = native is not None and native == expected_obs.strip()
+        rp['native_observation'], rp['engine_observation'], rp['reproduced'] = native, expected_obs, reproduced
+        rdir = os.environ.get('VERIF_REPLAY_DIR', os.path.join(VERIF, 'replays'))
+        os.makedirs(rdir, exist_ok=True)
+        path = os.path.join(rdir, f"{self.pid}_{re.sub(r'[^A-Za-z0-9_.-]', '_', role)}.json")
+        json.dump({'property': self.pid, 'role': role, 'what': text, 'model': model_desc, 'rust_test': test_body, 'replay': rp}, open(path, 'w'), indent=1, default=str)
+        known = [k for k in self.known if k.get('property') == self.pid and k.get('role') == role and k.get('status') == 'known']
+        v = {'role': role, 'text': text, 'replay': path, 'reproduced': reproduced, 'known': bool(known), 'model': model_desc}
+        self.violations.append(v)
+        if not reproduced:
+            self.inconclusive.append(f"counterexample for {role}: native observation differs from the engine's (encoding disagreement?) native={native!r} engine={expected_obs!r}"[:1500])
         return v
 
     # ------------------------------------------------------------------ finish
@@ -322,19 +351,19 @@ def main(pid, body):
         rc = ctx.finish()
     except (Unsupported, Inconclusive, mirdump.MirDumpError) as e:
         ctx.inconclusive.append(f"{type(e).__name__}: {e}")
+        rc = 2
         try:
-            ctx.finish()
+            rc = ctx.finish() or 2
         except Exception:
             traceback.print_exc()
         print(f"INCONCLUSIVE: {type(e).__name__}: {e}")
-        rc = 2
     except Exception as e:
         traceback.print_exc()
         ctx.inconclusive.append(f"internal error: {type(e).__name__}: {e}")
+        rc = 2
         try:
-            ctx.finish()
+            rc = ctx.finish() or 2
         except Exception:
             pass
         print(f"INCONCLUSIVE: internal error {type(e).__name__}: {e}")
-        rc = 2
     sys.exit(rc)
